@@ -725,6 +725,10 @@ func (e *Exec) callByContract(st *State, c *FuncContract, callee *ssa.Function, 
 		if strings.Contains(cl.Expr, "$T") || strings.Contains(cl.Expr, "$E") {
 			continue
 		}
+		if strictTags && e.eng.curProp != "" && len(cl.Props) > 0 && !hasPropTag(cl.Props, e.eng.curProp) {
+			// a postcondition tagged for other properties only is not proved in this run: not relied on
+			continue
+		}
 		x := mk(st, pre)
 		x.results = results
 		x.soft = sp
@@ -765,6 +769,24 @@ func (e *Exec) callByContract(st *State, c *FuncContract, callee *ssa.Function, 
 		return true, e.softExit(es, e.softPanicValue(es))
 	}
 	return true, nil
+}
+
+var strictTags = os.Getenv("GOVC_STRICT_TAGS") != ""
+
+// hasPropTag: the clause's tags name the property (variant tags, which start with @, are not property tags;
+// a clause with variant tags only belongs to every property of its function)
+func hasPropTag(tags []string, prop string) bool {
+	n := 0
+	for _, t := range tags {
+		if strings.HasPrefix(t, "@") {
+			continue
+		}
+		n++
+		if t == prop {
+			return true
+		}
+	}
+	return n == 0
 }
 
 // ---------- loops ----------
